@@ -19,13 +19,17 @@ import common  # noqa: E402
 
 
 def make_scratch():
+    """scratch copy of /repo's committed tree (HEAD), so that a seeded patch temporarily applied to the working tree by seedcheck.py cannot leak in"""
+    import subprocess
     d = tempfile.mkdtemp(prefix="ttv-selftest-")
-    for name in ("src", "build.rs", "Cargo.toml", "Cargo.lock"):
-        s = os.path.join(common.REPO, name)
-        if os.path.isdir(s):
-            shutil.copytree(s, os.path.join(d, name))
-        elif os.path.exists(s):
-            shutil.copy(s, os.path.join(d, name))
+    r = subprocess.run("git -C %s archive HEAD src build.rs Cargo.toml Cargo.lock | tar -x -C %s" % (common.REPO, d), shell=True, capture_output=True, text=True)
+    if r.returncode != 0:
+        for name in ("src", "build.rs", "Cargo.toml", "Cargo.lock"):
+            s = os.path.join(common.REPO, name)
+            if os.path.isdir(s):
+                shutil.copytree(s, os.path.join(d, name))
+            elif os.path.exists(s):
+                shutil.copy(s, os.path.join(d, name))
     return d
 
 
